@@ -150,9 +150,11 @@ def parseDecOperand (s : String) : Option Operand := do
   | [ms, es] =>
     let m ← ms.toNat?
     let e ← es.toInt?
-    if e ≥ 0 then
-      let v : Int := (m * 10 ^ e.toNat : Nat)
-      pure (.int (if neg then -v else v))
+    let v : Int := (m * 10 ^ e.toNat : Nat)
+    let sv : Int := if neg then -v else v
+    -- `if i := int32(x); float64(i) == x`: integral and inside the int32 range
+    if e ≥ 0 ∧ -2147483648 ≤ sv ∧ sv ≤ 2147483647 then
+      pure (.int sv)
     else if ms.length > 9 then none
     else pure (.real neg (m * 10 ^ (9 - ms.length)) ((ms.length : Int) + e))
   | _ => none
